@@ -126,7 +126,7 @@ fn main() {
                 c07::replay_c07(&v)
             } else if h.starts_with("c11.") {
                 c11::replay(&v)
-            } else if h.starts_with("x2.client-limit") || h.starts_with("x2.server-limit") || h == "c05.fill" {
+            } else if h.starts_with("x2.client-limit") || h.starts_with("x2.server-limit") || h.starts_with("x2.server-push-limit") || h == "c05.fill" {
                 c05::replay(&v).unwrap_or(false)
             } else if h.starts_with("x2.hostile") || h == "c18.directed" {
                 c18::replay(&v).unwrap_or(false)
